@@ -13,7 +13,7 @@
 #define MNS ((LENS >> 4) & 15)
 #define MNT (LENS & 15)
 uint8_t cx_own_s[2], cx_own_t[2], cx_msg_s[2], cx_msg_t[2], cx_enforce, cx_auth, cx_has_reset, cx_reset, cx_silent, cx_reliable;
-uint32_t cx_seq, cx_pre_recv, cx_pre_send, cx_hbi, cx_role = ROLE, cx_lens = LENS;
+uint32_t cx_seq, cx_pre_recv, cx_pre_send, cx_hbi, cx_role = ROLE, cx_lens = LENS, cx_req_s, cx_req_r;
 int main(void)
 {
   world_init(1);
@@ -22,7 +22,13 @@ int main(void)
   uint8_t enforce = nondet_bool(), silent = nondet_bool(), reliable = nondet_bool();
   uint32_t pre_recv = nondet_u32(), pre_send = nondet_u32(); VF_ASSUME(pre_recv >= 1 && pre_send >= 1);
   vf_conn_set((struct S_class_2eFIX8_3a_3aConnection*)&the_conn, ROLE, 1, 30, 0);
-  vf_sess_set_seq(BASE, pre_send, pre_recv); vf_sess_set_active(BASE, 1); vf_sess_set_req_seq(BASE, 0, 0);
+  /* start numbers requested through Session::start(conn, wait, send_seqnum, recv_seqnum): 0 = none (acceptor: symbolic) */
+  uint32_t req_s = 0, req_r = 0;
+#if ROLE == cn_acceptor
+  req_s = nondet_u32(); req_r = nondet_u32();
+#endif
+  cx_req_s = req_s; cx_req_r = req_r;
+  vf_sess_set_seq(BASE, pre_send, pre_recv); vf_sess_set_active(BASE, 1); vf_sess_set_req_seq(BASE, req_s, req_r);
   vf_sess_set_flags(BASE, enforce, silent, reliable, 0, 0);
 #if ROLE == cn_acceptor
   vf_sess_set_state(BASE, st_wait_for_logon);
@@ -67,7 +73,7 @@ int main(void)
     VF_REACH();
   }
   /* if: a well-formed logon with the right TargetCompID, authenticated, in sequence, completes */
-  uint32_t eff_recv = reset_given ? 1 : pre_recv;
+  uint32_t eff_recv = reset_given ? 1 : (req_r ? req_r : pre_recv);      /* a requested start number replaces the recovered one unless the peer resets */
   if ((!enforce || tci_ok) && m_auth && seq == eff_recv) { VF_ASSERT(completed && !shutdown && logon_reply == 1, "C23: a correct Logon is accepted"); VF_REACH(); }
   if (enforce && !tci_ok) { VF_ASSERT(state == st_session_terminated && shutdown && logon_reply == 0, "C23: wrong TargetCompID with enforcement on terminates the session without a Logon reply"); VF_REACH(); }
   if (!m_auth && (!enforce || tci_ok)) { VF_ASSERT(state == st_session_terminated && shutdown && logon_reply == 0, "C23: failed authentication terminates the session"); VF_REACH(); }
